@@ -327,63 +327,73 @@ func C01(c *Ctx) {
 	// ---- R3
 	mapcat := c.fn("match", "Matcher", "mapcatMatch")
 	if mapcat != nil {
+		// The member lookup is in mapcatMatch or in one of its own helpers (functions that do not lead back to it).
+		// "The key is missing" is the assumption that the lookup's ok flag is false, "the pattern value is not an
+		// optional variable" that IsOptionalVariable answers false: under both, every way on from the lookup ends in a
+		// return of no match — it neither reaches the next key (the header of the loop around the lookup or around
+		// the call that leads to it) nor returns bindings.  The flag may travel in a local record, through the
+		// result of the helper and through parameters (scenario.go).
+		scope := []*ssa.Function{mapcat}
+		for _, h := range pkgClosure(mapcat) {
+			if h != mapcat && m.inSet[h] && !inClosure(h, mapcat) {
+				scope = append(scope, h)
+			}
+		}
 		n3 := 0
-		ssau.Instrs(mapcat, func(in ssa.Instruction) {
-			lk, ok := in.(*ssa.Lookup)
-			if !ok || !lk.CommaOk || !m.has(lk.X, "F") || m.has(lk.X, "P") || !m.has(lk.Index, "P") {
-				return
-			}
-			n3++
-			var found ssa.Value
-			for _, r := range ssau.Referrers(lk) {
-				if ex, isEx := r.(*ssa.Extract); isEx && ex.Index == 1 {
-					found = ex
+		for _, f := range scope {
+			ssau.Instrs(f, func(in ssa.Instruction) {
+				lk, ok := in.(*ssa.Lookup)
+				if !ok || !lk.CommaOk || !m.has(lk.X, "F") || m.has(lk.X, "P") || !m.has(lk.Index, "P") {
+					return
 				}
-			}
-			ok3 := false
-			var iffB *ssa.BasicBlock
-			for _, r := range ssau.Referrers(found) {
-				if iff, isIf := r.(*ssa.If); isIf {
-					iffB = iff.Block()
+				n3++
+				var found ssa.Value
+				for _, r := range ssau.Referrers(lk) {
+					if ex, isEx := r.(*ssa.Extract); isEx && ex.Index == 1 {
+						found = ex
+					}
 				}
-			}
-			if iffB != nil {
-				nf := iffB.Succs[1] // not found
-				loops := flow.Loops(mapcat)
-				L := flow.InnermostLoop(loops, lk.Block())
-				ok3 = true
-				// explore from nf: every way back to the loop header or to a non-nil-result return must pass the optional predicate's true edge
-				seen := map[*ssa.BasicBlock]bool{}
-				stack := []*ssa.BasicBlock{nf}
-				for len(stack) > 0 {
-					b := stack[len(stack)-1]
-					stack = stack[:len(stack)-1]
-					if seen[b] {
-						continue
-					}
-					seen[b] = true
-					if L != nil && b == L.Header {
-						ok3 = false
-						continue
-					}
-					if ret, isRet := b.Instrs[len(b.Instrs)-1].(*ssa.Return); isRet {
-						if !ssau.IsNilConst(ret.Results[0]) {
-							ok3 = false
+				ok3 := false
+				if found != nil {
+					// the loop(s) whose next round is the next key, and the functions that hold them
+					headers := map[*ssa.BasicBlock]bool{}
+					frames := map[*ssa.Function]bool{mapcat: true}
+					var up func(b *ssa.BasicBlock, depth int)
+					up = func(b *ssa.BasicBlock, depth int) {
+						if L := flow.InnermostLoop(flow.Loops(b.Parent()), b); L != nil {
+							headers[L.Header] = true
+							frames[b.Parent()] = true
+							return
 						}
-						continue
-					}
-					if iff, isIf := b.Instrs[len(b.Instrs)-1].(*ssa.If); isIf {
-						if cl, isC := iff.Cond.(*ssa.Call); isC && cl.Common().StaticCallee() != nil && cl.Common().StaticCallee().Name() == "IsOptionalVariable" {
-							// the true edge is the sanctioned way on; only follow the false edge
-							stack = append(stack, b.Succs[1])
-							continue
+						if depth > 4 || b.Parent() == mapcat {
+							return
+						}
+						for _, site := range callSitesOf(b.Parent(), scope) {
+							up(site.Block(), depth+1)
 						}
 					}
-					stack = append(stack, b.Succs...)
+					up(lk.Block(), 0)
+					sc := newScenario(scope)
+					sc.vals[found] = false
+					sc.calls = func(cl *ssa.Call) tri {
+						if h := cl.Common().StaticCallee(); h != nil && h.Name() == "IsOptionalVariable" {
+							return triFalse
+						}
+						return triUnknown
+					}
+					ok3 = len(headers) > 0 && sc.endsUnder(lk.Block(), func(b *ssa.BasicBlock, ret *ssa.Return) (bool, bool) {
+						if ret == nil {
+							return headers[b], false
+						}
+						if !frames[b.Parent()] {
+							return false, false // a helper: on in its callers
+						}
+						return true, len(ret.Results) > 0 && ssau.IsNilConst(ret.Results[0])
+					})
 				}
-			}
-			c.R.Check(ok3, "C01-R3", fmt.Sprintf("mapcatMatch: missing key #%d", n3), c.pos(lk), "from the not-found edge only the optional-variable test leads on; otherwise the result is nil", "a pattern key that is missing from the message does not end the match")
-		})
+				c.R.Check(ok3, "C01-R3", fmt.Sprintf("mapcatMatch: missing key #%d", n3), c.pos(lk), "from the not-found edge only the optional-variable test leads on; otherwise the result is nil", "a pattern key that is missing from the message does not end the match")
+			})
+		}
 	}
 	// ---- R4
 	c01Inequal(c, m)
@@ -1146,19 +1156,27 @@ func C02(c *Ctx) {
 					}
 				}
 			}
+			// the flag and the value may be carried to where they are used in a local record, through a helper's
+			// result or a parameter: every copy counts
 			okFlag := false
 			if found != nil {
-				for _, r := range ssau.Referrers(found) {
-					if _, isIf := r.(*ssa.If); isIf {
-						okFlag = true
+				for _, cp := range copiesOf(found, m.fns, true) {
+					for _, r := range ssau.Referrers(cp) {
+						if _, isIf := r.(*ssa.If); isIf {
+							okFlag = true
+						}
 					}
 				}
 			}
 			nilTest := ""
 			if val != nil {
-				for _, r := range ssau.Referrers(val) {
-					if bo, isB := r.(*ssa.BinOp); isB && (bo.Op == token.EQL || bo.Op == token.NEQ) && (ssau.IsNilConst(bo.X) || ssau.IsNilConst(bo.Y)) {
-						nilTest = c.pos(bo)
+				// (not into the functions it is handed to: the matcher's own comparison of a message value with a null
+				// of the pattern is no presence test)
+				for _, cp := range copiesOf(val, m.fns, false) {
+					for _, r := range ssau.Referrers(cp) {
+						if bo, isB := r.(*ssa.BinOp); isB && (bo.Op == token.EQL || bo.Op == token.NEQ) && (ssau.IsNilConst(bo.X) || ssau.IsNilConst(bo.Y)) {
+							nilTest = c.pos(bo)
+						}
 					}
 				}
 			}
